@@ -33,6 +33,8 @@ ASSUMPTIONS = ['order >= 1 and at least order+1 autocorrelation lags are availab
                'stability is PROVED for every non-zero signal and every order on the computed (biased) autocorrelation path over the complex numbers (arLD_stable_of_signal) and for supplied rxx under the hypothesis that toeplitz(rxx[:p+1]) is positive definite (arLD_stable_of_pd); NOT covered by proof: a supplied rxx that is not positive definite (e.g. the unbiased estimate: no stability claim is made or checked there) and rounding (Float vs the complex numbers) - the numpy.roots / sigma > 0 certificate still runs on the binary64 results of every estimate from a biased or exact autocorrelation',
                'sigma_v >= 0 in AR_psd (sqrt of a real number)']
 TRUSTED_EXTRA = [
+    'wave 6: the control flow of the Levinson-Durbin loop of AR_est_LD (p = 2; while p <= order: ...; p += 1 with no break / continue / return / raise and no conditional) is GENERATED from the source (harness/translate_c10.py gen_ld_flow -> Generated/LdFlow.lean; ast walk of the loop body); Props/C10Sparse.lean ld_source_runs_every_pass is decide over it',
+    'op ldrq: AR_est_LD on a SUPPLIED sequence at the exact instance CQ; the structured sequences are built by harness/ar_exact.py in fractions.Fraction from dyadic parameters (binary64 values cross the protocol as int / 2^k)',
     'scipy.linalg (1.18) misreads non-native byte order: a big-endian rxx handed to AR_est_YW is not generated (big-endian SIGNALS are)',
     'integer-typed supplied rxx: AR_est_LD truncates (finding est/*/supplied/int-dtype/*, proposed_fixes/C10-ld-integer-rxx.diff); those cases are generated once the key is registered in known_findings.json',
     'Float (complex binary64) instance of the Scalar-polymorphic model approximates the ℂ instance the theorems are about (unproved; bounded by the 1e-9 comparison)',
